@@ -219,7 +219,7 @@ const COPYRIGHT_LICENSE: &[FieldSpec] = &[
 // ---- dep3::lossy::PatchHeader -----------------------------------------------------------------------------
 const DEP3_PATCH_HEADER: &[FieldSpec] = &[
     // parse_origin / format_origin: "[category, ]origin" with origin "commit:<id>" or anything else; never fails
-    f!("Origin", false, ["upstream, https://example.com/commit/1", "commit:abc123", "backport, commit:abc123"], Normal, None),
+    f!("Origin", false, ["upstream, https://example.com/commit/1", "commit:abc123", "backport, commit:abc123", "Ubuntu, https://launchpad.net/x", "other, Fedora, https://example.com/p"], Normal, None),
     // "no" / "not-needed" / anything else = reference; never fails
     f!("Forwarded", false, ["no", "not-needed", "https://lists.example.com/msg/1"], Normal, None),
     text!("Author", "John Doe <john.doe@example.com>", "Jane Doe <jane@example.com>"),
